@@ -50,6 +50,8 @@ namespace awkward {
     offsets_.clear();
     offsets_.append(0);
     content_.get()->clear();
+    // (like RecordBuilder and TupleBuilder: no list is open in a cleared builder)
+    begun_ = false;
   }
 
   const ContentPtr
